@@ -199,6 +199,8 @@ fn main() {
 
 fn c10_cases() -> Vec<(Box<dyn Subject>, generic::StreamCase)> {
     vec![
+        (Box::new(subjects::Btor2) as Box<dyn Subject>, generic::StreamCase { label: "btor2-blank-line-run".into(), prefix: vec![], period: b"\n".to_vec(), suffix: b"1 sort bitvec 1\n".to_vec(), max_item: 16 }),
+        (Box::new(subjects::Btor2) as Box<dyn Subject>, generic::StreamCase { label: "btor2-indented-blank-run".into(), prefix: b"1 sort bitvec 1\n".to_vec(), period: b"  \n \n".to_vec(), suffix: b"; end".to_vec(), max_item: 16 }),
         (Box::new(subjects::Btor2) as Box<dyn Subject>, generic::StreamCase { label: "btor2-comment-run".into(), prefix: vec![], period: b"; a comment line\n\n  \n".to_vec(), suffix: b"1 sort bitvec 1\n".to_vec(), max_item: 20 }),
         (
         Box::new(subjects::Btor2) as Box<dyn Subject>,
